@@ -26,9 +26,11 @@ decreasing_by
   have : 0 < b.length := List.length_pos_iff.mpr _h
   simp only [List.length_drop]; omega
 
-/-- `CORRECT_BLOCK_ID_202612` / `EXISTING_BLOCK_ID_202612` of src/blockdata/block.rs:93-98 (model side) -/
-def correct202612 : Bytes := Hex.decode "426d16cff04c71f8b16340b722dc4010a2dd3831c22041431f772547ba6e331a"
-def existing202612 : Bytes := Hex.decode "bbd604d2ba11ba27935e006ed39c9bfdd99b76bf4a50654bc1e1e61217962698"
+/-- `CORRECT_BLOCK_ID_202612` / `EXISTING_BLOCK_ID_202612` of src/blockdata/block.rs (model side): the values REGENERATED from the
+current source on every run (`Gen/Consts.lean`), the same definitions that `C06_consts`, `C06_id_gen`, `C06_parsed_block` are about
+(until the audit of C06 these were hand copies of the hex strings) -/
+def correct202612 : Bytes := Gen.correctId202612
+def existing202612 : Bytes := Gen.existingId202612
 
 def K : Bytes → Bytes := Keccak.keccak256
 
